@@ -2,7 +2,7 @@
 import ast
 
 from .. import util
-from ..interp import Interp, Path, abs_value, exc_value, is_exc, show, subterms, contains
+from ..interp import Interp, Path, abs_value, exc_value, is_exc, show, strip_sites, subterms, contains
 from ..report import Undecided
 
 MAPPING_LOAD = "cobald.daemon.config.mapping:load_configuration"
@@ -183,6 +183,20 @@ def mapping_rules(chk):
             if not (recv[0] == "item"):
                 chk.bad(r, name, "digest is called on %s, not on the plugin of this iteration" % show(recv), node=fi.node, stmt="digest-receiver")
                 ok = False
+            else:
+                # the plugins are visited in the order they are given in (the constraint order computed by the loader)
+                src = strip_sites(recv[1])
+                while src[0] == "call" and src[1] in (("glob", "ext:builtins.list"), ("glob", "ext:builtins.tuple"), ("glob", "ext:builtins.iter")) and len(src[2]) == 1 and not src[3]:
+                    src = src[2][0]
+                PLUGINS = ("sym", params[1]) if len(params) > 1 else None
+                if src != PLUGINS:
+                    reorder = [x for x in subterms(src) if x[0] == "call" and x[1] in (("glob", "ext:builtins.sorted"), ("glob", "ext:builtins.reversed"), ("glob", "ext:builtins.set"), ("glob", "ext:builtins.frozenset"))] or (src[0] == "reversed")
+                    if reorder and PLUGINS in list(subterms(src)):
+                        chk.bad(r, name, "the plugins are digested in the order of %s, not in the order they are given in: the before/after constraints the loader sorted them by are no longer respected" % show(src), node=fi.node, stmt="digest-order")
+                        ok = False
+                    else:
+                        chk.undecided(r, name, "the digest loop ranges over %s" % show(src), node=fi.node)
+                        ok = False
             kept = [e for e in evs if e[0] == "store" and e[2] == res]
             if o.kind != "return":
                 chk.bad(r, name, "loading does not return after digesting (path ends: %s)" % o.kind, node=fi.node, stmt="no-return", input=kind)
@@ -216,27 +230,46 @@ def mapping_rules(chk):
         chk.ok(r, name, "missing: raise iff required; present: one digest(section content) outside the KeyError try; kept iff `is not None`", node=fi.node, input="result partition none/falsy/truthy x section present/missing x required/optional")
 
 
+def _is_member_test(c):
+    """`x in m`  (also spelled  `not (x not in m)`)"""
+    while isinstance(c, ast.UnaryOp) and isinstance(c.op, ast.Not) and isinstance(c.operand, ast.UnaryOp) and isinstance(c.operand.op, ast.Not):
+        c = c.operand.operand
+    if isinstance(c, ast.Compare) and len(c.ops) == 1 and isinstance(c.ops[0], ast.In):
+        return True
+    return isinstance(c, ast.UnaryOp) and isinstance(c.op, ast.Not) and isinstance(c.operand, ast.Compare) and len(c.operand.ops) == 1 and isinstance(c.operand.ops[0], ast.NotIn)
+
+
 def _same_container(a, b, path):
     return a == b
 
 
-def _find_dep_map(fi):
-    """the mapping handed to toposort_flatten"""
+def _find_dep_map(prog, fi):
+    """(name of the mapping handed to toposort_flatten, the toposort call, the function that builds the mapping)"""
     for n in ast.walk(fi.node):
         if isinstance(n, ast.Call) and (util.dotted(n.func) or "").split(".")[-1] in ("toposort_flatten", "toposort"):
             if n.args and isinstance(n.args[0], ast.Name):
-                return n.args[0].id, n
-    return None, None
+                return n.args[0].id, n, fi
+            if n.args and isinstance(n.args[0], ast.Call):
+                # built by a helper:  toposort_flatten(_dependencies(plugins))
+                r = prog.resolve(fi.module, n.args[0].func)
+                g = prog.functions.get(r) if r else None
+                if g is not None:
+                    rets = [x for x in ast.walk(g.node) if isinstance(x, ast.Return)]
+                    if len(rets) == 1 and isinstance(rets[0].value, ast.Name):
+                        return rets[0].value.id, n, g
+    return None, None, None
 
 
 def loader_rules(chk):
     prog = chk.program
     fi = prog.func(SECTION_LOADER)
     name = fi.qual
-    dep, topo = _find_dep_map(fi)
+    dep, topo, dfi = _find_dep_map(prog, fi)
     if dep is None:
         chk.undecided("O14.3", name, "no toposort call on a named dependency mapping found", node=fi.node)
         return
+    res_fi = fi  # where the sorted names are turned into the result
+    fi = dfi  # where the dependency mapping is built
     parents = util.parents_map(fi.node)
     # ---- aliases: which local names denote constraint names / a plugin's own section
     constraint_vars = {}  # local name -> 'before' | 'after'
@@ -310,6 +343,22 @@ def loader_rules(chk):
         ok = False
     defaultdict = init is not None and "defaultdict" in util.unparse(init)
     adds = []
+    aliases = {}  # local name -> key expression: the name denotes D[key]
+    for n in ast.walk(fi.node):
+        if isinstance(n, ast.Assign):
+            key = None
+            v = n.value
+            if isinstance(v, ast.Subscript) and isinstance(v.value, ast.Name) and v.value.id == dep:
+                key = v.slice
+            elif isinstance(v, ast.Call) and isinstance(v.func, ast.Attribute) and v.func.attr in ("setdefault", "get") and isinstance(v.func.value, ast.Name) and v.func.value.id == dep and v.args:
+                key = v.args[0]
+            for t in n.targets:
+                if isinstance(t, ast.Subscript) and isinstance(t.value, ast.Name) and t.value.id == dep and len(n.targets) > 1:
+                    key = t.slice
+            if key is not None:
+                for t in n.targets:
+                    if isinstance(t, ast.Name):
+                        aliases[t.id] = key
     for n in ast.walk(fi.node):
         # D[key] = value
         if isinstance(n, ast.Assign):
@@ -330,6 +379,8 @@ def loader_rules(chk):
                 and recv.args
             ):
                 key = recv.args[0]
+            elif isinstance(recv, ast.Name) and recv.id in aliases:
+                key = aliases[recv.id]
             if key is not None and n.args:
                 adds.append((classify_key(key), classify_value(n.args[0]), n, n.func.attr))
     chk.count(len(adds) + 1)
@@ -362,6 +413,7 @@ def loader_rules(chk):
         chk.bad(r, name, "`before` constraints never enter the dependency mapping", node=fi.node, stmt="before-dropped")
         ok = False
     # the sorted names are filtered to installed plugins, and the result follows the sorted order
+    build_fi, fi = fi, res_fi
     filt = False
     topo_names = set()
     for n in ast.walk(fi.node):
@@ -373,7 +425,7 @@ def loader_rules(chk):
         if isinstance(n, (ast.GeneratorExp, ast.ListComp)):
             for g in n.generators:
                 if from_topo(g.iter):
-                    if any(isinstance(c, ast.Compare) and isinstance(c.ops[0], ast.In) for c in g.ifs):
+                    if any(_is_member_test(c) for c in g.ifs):
                         filt = True
     if not filt:
         # the sorted names include constraint names of plugins that are not installed: an unfiltered
@@ -398,6 +450,7 @@ def loader_rules(chk):
 
     # ---- O14.4 totality (contradiction rule) ------------------------------------------
     r = "O14.4"
+    fi = build_fi
     admits_absent = filt  # the code itself filters by membership => names may be absent
     bad = 0
     n_sites = 0
@@ -547,7 +600,56 @@ def constraints_rules(chk):
         chk.ok(r, name, "before/after/required are stored and read under their own names (%s)" % sorted(set_names & read_names), node=ctor)
 
 
+def plugin_identity(chk):
+    """O14.6: the plugin made for an entry point carries THAT entry point's name as its section and its loaded object
+    as the digest -- on every returning path (no object made for another entry point is handed back)"""
+    prog = chk.program
+    r = "O14.6"
+    fi = prog.method("cobald.daemon.config.mapping:SectionPlugin", "load")
+    if not fi.params():
+        raise Undecided("SectionPlugin.load has no entry point parameter", fi.node)
+    EP = ("sym", fi.params()[0])
+    init = prog.lookup_method(fi.cls, "__init__")
+    iparams = init.params() if init is not None else ["section", "digest", "requirements"]
+    ok = True
+    n = 0
+    for o in Interp(prog, fi, inline=lambda f, ct: f.cls is fi.cls and f is not fi and not f.is_async and f.name != "__init__").run():
+        chk.count()
+        if o.kind == "raise":
+            continue
+        n += 1
+        v = strip_sites(o.value) if o.kind == "return" and o.value else None
+        fresh = v is not None and v[0] == "call" and v[1] in (("sym", "cls"), ("glob", fi.cls.qual))
+        if not fresh:
+            conds = "; ".join("%s is %s" % (show(e[1]), e[2]) for e in o.path.events if e[0] == "branch" and e[4] == "forked")
+            chk.bad(
+                r,
+                fi.qual,
+                "load can return %s%s instead of a plugin built for this entry point: a section is then represented by a plugin carrying another section's name, so it is reported as unknown, not digested, or loses its required check"
+                % (show(v) if v else o.kind, " (when %s)" % conds if conds else ""),
+                node=fi.node,
+                stmt="load-not-fresh",
+            )
+            ok = False
+            continue
+        kw = dict(v[3])
+        for i, a in enumerate(v[2]):
+            if i < len(iparams):
+                kw[iparams[i]] = a
+        sec, dig = kw.get("section"), kw.get("digest")
+        if sec != ("attr", EP, "name"):
+            chk.bad(r, fi.qual, "the plugin's section is %s instead of the entry point's name" % (show(sec) if sec else "missing"), node=fi.node, stmt="load-section")
+            ok = False
+        if not (dig is not None and dig[0] == "call" and dig[1] == ("attr", EP, "load") and not dig[2]):
+            chk.bad(r, fi.qual, "the plugin's digest is %s instead of the object the entry point loads" % (show(dig) if dig else "missing"), node=fi.node, stmt="load-digest")
+            ok = False
+    chk.floor(r, n, 1)
+    if ok:
+        chk.ok(r, fi.qual, "every returning path builds cls(section=entry_point.name, digest=entry_point.load(), ...)", node=fi.node)
+
+
 def run(chk):
+    chk.guard("O14.6", "SectionPlugin.load", plugin_identity, chk)
     chk.guard("O14.1", MAPPING_LOAD, mapping_rules, chk)
     chk.guard("O14.3", SECTION_LOADER, loader_rules, chk)
     chk.guard("O14.5", CONSTRAINTS, constraints_rules, chk)
